@@ -88,6 +88,7 @@ ISpecP(P) == (Init /\ P /\ pc = 1 /\ obs = [k |-> "init"]) /\ [][INext]_ivars
 RefVerifyOK ==
   obs.k = "Verify" =>
     \/ obs.ref = "any"
+    \/ ItemBad(obs.cb.cfg.key)          \* (the reference says nothing about operations with a key whose import failed)
     \/ /\ P_C01(obs.pt, obs.cb, obs.sok, obs.ret)
        /\ P_C02(obs.pt, obs.cb, obs.ret)
        /\ P_C03(obs.pt, obs.cb, obs.ret)
@@ -99,6 +100,7 @@ RefVerifyOK ==
 RefGenerateOK ==
   obs.k = "Generate" =>
     \/ obs.g.ret = ANY
+    \/ ItemBad(GenCb(obs.b, obs.t, obs.rs).cfg.key)
     \/ /\ P_C10(obs.b, obs.t, obs.rs, obs.o, obs.g, obs.b.hdr, obs.b.clm)
        /\ P_C03g(obs.b, obs.t, obs.rs, obs.g)
        /\ P_C02g(obs.b, obs.t, obs.rs, obs.g)
